@@ -133,6 +133,10 @@ func init() {
 					period := 1
 					gaps := []int64{0, 500, 999, 1001, 2000}
 					maxLen := intensity + 2
+					if c.Thorough {
+						gaps = []int64{0, 1, 500, 999, 1000, 1001, 2000}
+						maxLen = intensity + 3
+					}
 					seq := make([]int, maxLen)
 					var rec func(d int) bool
 					rec = func(d int) bool {
